@@ -734,6 +734,8 @@ var c09Corpus = []c09Prog{
 	{Text: "a.b -> c; a.shape: class\n"},
 	{Text: "shape: class\nx -> y\n", Core: true},
 	{Text: "shape: class\nx; y\n", Core: true},
+	{Text: "t: {shape: class; q: {_.y -> _.z}}\n"},
+	{Text: "t: {shape: class; q; y -> z}\n"},
 	{Text: "x\nlayers: {l: {shape: sql_table; id: int; id -> name}}\n"},
 	{Text: "tbl: {shape: sql_table; id: int; name; id -> name}\ntbl2: {shape: class; f}\ntbl.id -> tbl2.f\nq -> tbl.zz\ntbl.id -> tbl.name\n", Core: true},
 	{Text: "a: {shape: sql_table; x -> y}\n"},
@@ -1003,6 +1005,9 @@ func c09Cases(p c09Prog) []Case {
 	if res.Err != "" || len(res.Boards) == 0 {
 		c := Case{Class: p.Class + "/no-graph", Input: input, Impl: map[string]any{"error": res.Err}, Key: p.Text, ImplFail: res.Fail}
 		c.Coq = "COrder []"
+		if c09TableScopePanic(p, res.Fail) {
+			c.KF = []string{"C09-table-scope-panic"}
+		}
 		return []Case{c}
 	}
 	nobj, nedge, ncont := 0, 0, 0
@@ -1050,6 +1055,19 @@ func c09Cases(p c09Prog) []Case {
 		out = append(out, c2)
 	}
 	return out
+}
+
+// Known finding C09-table-scope-panic: signature = Compile panics in d2graph with "assignment to entry in
+// nil map" on a program that declares a class / sql_table shape and uses the parent reference "_".
+func c09TableScopePanic(p c09Prog, fails []string) bool {
+	if len(fails) != 1 || !strings.Contains(fails[0], "Compile panic in d2graph: assignment to entry in nil map") {
+		return false
+	}
+	all := p.Text
+	for _, f := range p.Files {
+		all += "\n" + f
+	}
+	return (strings.Contains(all, "shape: class") || strings.Contains(all, "shape: sql_table")) && strings.Contains(all, "_.")
 }
 
 // Known finding C09-root-table-edge: signature = a board whose root is declared shape: class or
